@@ -6,7 +6,7 @@ Driver for components `sigv2` and `sigv2e2e` (C11).
 
 `sigv2` case lines (component level):
   `sigv2 id auth value | ak? sig?`
-  `sigv2 id presign rawquery | ok/err ak expires sig`
+  `sigv2 id presign rawquery | ok/err ak expires_time(ns since the epoch) sig`
   `sigv2 id sts mode method uripath query? hnames hvalues vh? secret | string_to_sign signature`
 `sigv2e2e` case lines (through `S3Service::call`):
   `sigv2e2e id host? aks secrets method uri hnames hvalues defer? signer_vh? expect tag | now0 now1 uri_final access backend code`
@@ -37,16 +37,27 @@ def shapeClass (r : SigV2Spec.Req) : String :=
   else if SigV2Spec.subresources.any fun q => count qnames q ≥ 2 then "subresource-duplicated"
   else "other"
 
-/-- finding class of the credentials a request presents, from their shape alone. The repaired class
-    (`signature-double-encoded`: a `%` left in the `Signature` value after query decoding) is looked at
-    last, so that it is reported only for requests that show none of the open ones -/
+/-- the range of the server's clock type (`OffsetDateTime` without `large-dates`): its last whole second
+    (9999-12-31T23:59:59Z) and its last instant in nanoseconds since the epoch -/
+def clockLastSecond : Int := 253402300799
+def clockLastNs : Int := 253402300799999999999
+
+/-- the expiry instant `x` (ns) an implementation holds for the `Expires` second `e` decides "received after
+    this time" like `e` itself for every reading of the clock: it is that second exactly when the clock can
+    reach it, and otherwise no reading of the clock is after it -/
+def expiryFaithful (e x : Int) : Bool :=
+  if e ≤ clockLastSecond then x = e * 1000000000 else decide (clockLastNs ≤ x ∧ x ≤ e * 1000000000)
+
+/-- class of the credentials a request presents, from their shape alone (both classes are repaired:
+    `expires-out-of-range`: `Expires` beyond year 9999; `signature-double-encoded`: a `%` left in the
+    `Signature` value after query decoding; they stay the names under which a relapse is reported) -/
 def credsClass (r : SigV2Spec.Req) : Option String :=
   match SigV2Spec.paramValues r (sp!"Signature"), SigV2Spec.paramValues r (sp!"Expires") with
   | sg :: _, exs =>
     let outOfRange := match exs with
       | ex :: _ =>
         (match SigV2Spec.expiresValue ex with
-          | some e => decide (e > SigV2.maxUnixTs)
+          | some e => decide (e > clockLastSecond)
           | none => false)
       | [] => false
     if outOfRange then some "expires-out-of-range"
@@ -80,13 +91,24 @@ def judgePresign (id : String) (rawq : Bytes) (st akS exS sgS : String) : String
     let implOut := s!"{st}/{akS}/{exS}/{sgS}"
     let modelOut := match SigV2.parsePresigned (SigV2.sortByFirst pairs) with
       | none => "err/-/-/-"
-      | some p => s!"ok/{hexEncode p.accessKey}/{p.expires}/{hexEncode p.signature}"
+      | some p => s!"ok/{hexEncode p.accessKey}/{p.expiresNs}/{hexEncode p.signature}"
     let r : SigV2Spec.Req := ⟨[], [], [], pairs, none⟩
     -- an Expires before the epoch is "expired" for the specification; at this level that is an error too
-    let specOut := match SigV2Spec.credentials r with
-      | some ⟨.query, ak, sg, some e⟩ => if e < 0 then "err/-/-/-" else s!"ok/{hexEncode ak}/{e}/{hexEncode sg}"
-      | _ => "err/-/-/-"
-    if implOut ≠ specOut then
+    let specCreds : Option (Bytes × Int × Bytes) := match SigV2Spec.credentials r with
+      | some ⟨.query, ak, sg, some e⟩ => if e < 0 then none else some (ak, e, sg)
+      | _ => none
+    let specOut := match specCreds with
+      | some (ak, e, sg) => s!"ok/{hexEncode ak}/{e}s/{hexEncode sg}"
+      | none => "err/-/-/-"
+    -- the specification's credentials, with an expiry that decides like the stated second (`expiryFaithful`)
+    let specOk : Bool := match specCreds with
+      | some (ak, e, sg) =>
+        st = "ok" && akS = hexEncode ak && sgS = hexEncode sg &&
+          (match exS.toInt? with
+            | some x => expiryFaithful e x
+            | none => false)
+      | none => implOut = "err/-/-/-"
+    if !specOk then
       specfail id ((credsClass r).getD "presign-other") s!"spec={specOut} impl={implOut}"
     else if implOut ≠ modelOut then disagree id modelOut implOut
     else agree id (if st = "ok" then "presign-ok" else "presign-err")
